@@ -248,10 +248,27 @@ theorem archop_scan_spec (src : Src) (n : Nat)
     ':' and every ten int32 slots (including the extremes), decoding the
     marshalled text into any receiver gives the value back. -/
 theorem version_text_roundtrip_partial (kind : Bytes) (v : List Int) (old : Version)
-    (hk : kind ≠ []) (hc : 58 ∉ kind) (hv : v.length = 10) (hold : old.v.length = 10)
+    (hk : kind ≠ []) (hc : 58 ∉ kind) (hv : v.length = 10)
     (hr : ∀ x ∈ v, inInt32 x) :
     versionUnmarshal old (versionMarshal ⟨kind, v⟩) = some ⟨kind, v⟩ :=
-  versionUnmarshal_marshal kind v old hk hc hv hold hr
+  versionUnmarshal_marshal kind v old hk hc hv hr
+
+/-- Receiver independence (the repaired defect): what `Version.UnmarshalText`
+    leaves in its receiver — the decoded value on success, the partial value on
+    an error — does not depend on what the receiver held before.  The old code
+    only assigned the slots the text spells and ignored a text without ':', so
+    "k:1.2.3" decoded after "k:9.9.9.9.9.9.9.9.9.9" gave 1.2.3.9.9.9.9.9.9.9 and
+    the empty text (the zero Version's text form) kept the old value. -/
+theorem version_unmarshal_receiver_independent (old old' : Version) (text : Bytes) :
+    versionUnmarshal old text = versionUnmarshal old' text ∧
+    versionUnmarshalX old text = versionUnmarshalX old' text := ⟨rfl, rfl⟩
+
+/-- The witness of the repaired defect, in the model of the fixed code: the
+    shorter text after the longer one, and the empty text after any. -/
+theorem version_reused_receiver_witness :
+    versionUnmarshal ⟨[107], List.replicate 10 9⟩ [107, 58, 49, 46, 50, 46, 51] =
+      some ⟨[107], [1, 2, 3, 0, 0, 0, 0, 0, 0, 0]⟩ ∧
+    versionUnmarshal ⟨[107], List.replicate 10 9⟩ [] = some Version.zero := by decide
 
 /-- The repaired defect: a text with more than ten `.`-separated components is
     rejected (the old code indexed the slot array out of range and panicked). -/
@@ -261,17 +278,17 @@ theorem version_decode_rejects_eleven (old : Version) (kind rest : Bytes) (text 
   simp only [versionUnmarshal, hcut]
   rw [fillSlots_too_many _ _ 0 (by omega) (by omega)]
 
-/-- A successful decode always leaves exactly the receiver's ten slots. -/
+/-- A successful decode always leaves exactly ten slots. -/
 theorem version_decode_slots (old v' : Version) (text : Bytes)
-    (h : versionUnmarshal old text = some v') : v'.v.length = old.v.length := by
+    (h : versionUnmarshal old text = some v') : v'.v.length = 10 := by
   unfold versionUnmarshal at h
   split at h
-  · cases h; rfl
+  · cases h; simp [Version.zero]
   · split at h
     · cases h
     · rename_i w hw
       cases h
-      exact fillSlots_length _ _ _ _ hw
+      simpa [Version.zero] using fillSlots_length _ _ _ _ hw
 
 /-- Full-strength round trip is false: a kind containing ':' is cut at its
     first ':' when decoding (recorded finding `version-kind-colon`). -/
@@ -370,14 +387,28 @@ theorem digest_unmarshal_receiver (old : Option Digest) (t : Bytes) :
   · intro h; rw [h]
   · intro d h; rw [h]
 
-/-- `Digest.Scan` over every kind of driver value: `nil` is accepted and changes
-    nothing; a `string` is the text decoder (its error is returned — the
-    repaired defect); `[]byte`, `int64` and the rest are errors that change nothing. -/
+/-- `Digest.Scan` over every kind of driver value: `nil` is accepted and gives
+    the zero Digest (repaired: it used to keep the receiver); a `string` is the
+    text decoder (its error is returned — repaired too); `[]byte`, `int64` and
+    the rest are errors that change nothing. -/
 theorem digest_scan_spec (old : Option Digest) (src : Src) :
-    (src = .null → digestScan old src = (old, true)) ∧
+    (src = .null → digestScan old src = (none, true)) ∧
     (∀ t, src = .str t → digestScan old src = digestUnmarshal old t) ∧
     ((∀ t, src ≠ .str t) → src ≠ .null → digestScan old src = (old, false)) := by
   cases src <;> simp [digestScan]
+
+/-- Receiver independence of the Digest decoders: whenever the error is nil,
+    what is left in the receiver does not depend on what it held before. -/
+theorem digest_receiver_independent (old old' : Option Digest) (src : Src) (t : Bytes) :
+    ((digestScan old src).2 = true → (digestScan old src).1 = (digestScan old' src).1 ∧ (digestScan old' src).2 = true) ∧
+    ((digestUnmarshal old t).2 = true →
+      (digestUnmarshal old t).1 = (digestUnmarshal old' t).1 ∧ (digestUnmarshal old' t).2 = true) := by
+  constructor
+  · cases src <;> simp [digestScan, digestUnmarshal]
+    rename_i b
+    cases digestParse b <;> simp
+  · simp only [digestUnmarshal]
+    cases digestParse t <;> simp
 
 /-- SQL round trip: `Value()` of a digest a constructor can build scans back to
     it, whatever the receiver held. -/
@@ -392,7 +423,7 @@ theorem digest_zero_value_counterexample :
     digestScan none (.str (digestText none)) = (none, false) := by decide
 
 /-- The accepted language of `Version.UnmarshalText`: a text without ':' (which
-    is ignored), or `kind ":" c₀ "." … "." cₖ` with at most ten components, each
+    gives the zero Version), or `kind ":" c₀ "." … "." cₖ` with at most ten components, each
     an optionally signed decimal int32. -/
 theorem version_accepts_iff (old : Version) (text : Bytes) :
     (versionUnmarshal old text).isSome = true ↔
@@ -407,14 +438,14 @@ theorem version_accepts_iff (old : Version) (text : Bytes) :
     obtain ⟨kind, rest⟩ := p
     obtain ⟨he, hk⟩ := (cut_iff 58 text kind rest).1 hc
     have hin : 58 ∈ text := by rw [he]; simp
-    have hiff := fillSlots_isSome_iff (splitOn 46 rest) old.v 0 (by omega)
+    have hiff := fillSlots_isSome_iff (splitOn 46 rest) Version.zero.v 0 (by omega)
     simp only [Nat.zero_add] at hiff
     simp only
     constructor
     · intro h
       refine Or.inr ⟨kind, rest, he, hk, ?_⟩
       apply hiff.1
-      cases hf : fillSlots old.v (splitOn 46 rest) 0 with
+      cases hf : fillSlots Version.zero.v (splitOn 46 rest) 0 with
       | none => rw [hf] at h; simp at h
       | some w => rfl
     · rintro (h | ⟨kind', rest', he', hk', hlen, hall⟩)
@@ -423,7 +454,7 @@ theorem version_accepts_iff (old : Version) (text : Bytes) :
         rw [hc] at this
         cases this
         have := hiff.2 ⟨hlen, hall⟩
-        cases hf : fillSlots old.v (splitOn 46 rest) 0 with
+        cases hf : fillSlots Version.zero.v (splitOn 46 rest) 0 with
         | none => rw [hf] at this; simp at this
         | some w => rfl
 
@@ -437,30 +468,30 @@ theorem version_unmarshalX_agrees (old : Version) (text : Bytes) :
   | none => simp
   | some p =>
     obtain ⟨kind, rest⟩ := p
-    obtain ⟨h1, h2⟩ := fillSlotsX_ok (splitOn 46 rest) old.v 0
+    obtain ⟨h1, h2⟩ := fillSlotsX_ok (splitOn 46 rest) Version.zero.v 0
     simp only
     constructor
-    · rw [h1]; cases fillSlots old.v (splitOn 46 rest) 0 <;> rfl
+    · rw [h1]; cases fillSlots Version.zero.v (splitOn 46 rest) 0 <;> rfl
     · intro v hv
-      cases hf : fillSlots old.v (splitOn 46 rest) 0 with
+      cases hf : fillSlots Version.zero.v (splitOn 46 rest) 0 with
       | none => rw [hf] at hv; cases hv
       | some w => rw [hf] at hv; cases hv; rw [h2 w hf]
 
 /-- Full strength ("a rejected text leaves the receiver unchanged") is false of
-    `Version.UnmarshalText`: it assigns as it goes, so after the error on
-    "k:7.x" the receiver has the new kind and the first slot (documented
-    behaviour, observed on the real code by the `ver-unx` lines). -/
+    `Version.UnmarshalText`: it resets the receiver and assigns as it goes, so
+    after the error on "k:7.x" the receiver has the new kind and the first slot
+    (documented behaviour, observed on the real code by the `ver-unx` lines). -/
 theorem version_error_mutates_receiver_counterexample :
     versionUnmarshalX Version.zero [107, 58, 55, 46, 120] =
       (⟨[107], 7 :: List.replicate 9 0⟩, false) := by decide
 
-/-- …but whatever happens it still has its ten slots. -/
+/-- …but whatever happens it has its ten slots. -/
 theorem version_error_keeps_slot_count (old : Version) (text : Bytes) :
-    (versionUnmarshalX old text).1.v.length = old.v.length := by
+    (versionUnmarshalX old text).1.v.length = 10 := by
   unfold versionUnmarshalX
   split
-  · rfl
-  · exact fillSlotsX_length _ _ _
+  · simp [Version.zero]
+  · simpa [Version.zero] using fillSlotsX_length (splitOn 46 _) Version.zero.v 0
 
 /-! ## The JSON form of the reports (Model/ReportJson.lean)
 
@@ -636,38 +667,62 @@ theorem map_field_accepts_iff {β : Type} (d : J → Option β) (o : Option J) :
   hold for every such function. -/
 
 /-- The accepted language of `(*WFN).UnmarshalText`: the empty text, and whatever `Unbind` accepts. -/
-theorem wfn_accepts_iff {W : Type} (unbind : Bytes → Option W) (old : W) (b : Bytes) :
-    (wfnUnmarshalText unbind old b).isSome = true ↔ b = [] ∨ (unbind b).isSome = true := by
+theorem wfn_accepts_iff {W : Type} (unbind : Bytes → Option W) (zero old : W) (b : Bytes) :
+    (wfnUnmarshalText unbind zero old b).isSome = true ↔ b = [] ∨ (unbind b).isSome = true := by
   unfold wfnUnmarshalText
   cases b with
   | nil => simp
   | cons c cs => simp
 
-/-- The empty text — the text form of the zero WFN — is accepted and leaves the
-    receiver as it is: decoded into a fresh value it gives the zero WFN back
-    (the zero value round-trips), decoded into a used receiver it does NOT
-    reset it (documented in marshaling.go for `Scan`). -/
-theorem wfn_empty_text_keeps_receiver {W : Type} (unbind : Bytes → Option W) (old : W) :
-    wfnUnmarshalText unbind old [] = some old ∧ wfnScan unbind old (.str []) = some old ∧
-    wfnScan unbind old (.bytes []) = some old := by
-  refine ⟨rfl, rfl, ?_⟩
-  simp [wfnScan, toValidUTF8, toValidUTF8Aux, wfnUnmarshalText]
+/-- Receiver independence of `(*WFN).UnmarshalText` (after the fix): the result
+    does not depend on what the receiver held — in particular the empty text,
+    the text form of the unset WFN, gives the unset WFN. -/
+theorem wfn_unmarshal_receiver_independent {W : Type} (unbind : Bytes → Option W) (zero old old' : W) (b : Bytes) :
+    wfnUnmarshalText unbind zero old b = wfnUnmarshalText unbind zero old' b ∧
+    wfnUnmarshalText unbind zero old [] = some zero := ⟨rfl, rfl⟩
+
+/-- `(*WFN).Scan` is NOT receiver independent on the empty string: it "does not
+    error and leaves the WFN in its current state" (documented in
+    marshaling.go; recorded finding `wfn-scan-empty-keeps-receiver`) — for every
+    other accepted source it is. -/
+theorem wfn_scan_empty_keeps_receiver_counterexample {W : Type} (unbind : Bytes → Option W) (old : W) :
+    wfnScan unbind old (.str []) = some old ∧ wfnScan unbind old (.bytes []) = some old := by
+  refine ⟨rfl, ?_⟩
+  simp [wfnScan, toValidUTF8, toValidUTF8Aux, wfnScanText]
+
+theorem wfn_scan_receiver_independent_partial {W : Type} (unbind : Bytes → Option W) (old old' : W) (src : Src)
+    (h : src ≠ .str [] ∧ ∀ b, src = .bytes b → toValidUTF8 b ≠ []) :
+    wfnScan unbind old src = wfnScan unbind old' src := by
+  cases src with
+  | str s =>
+    cases s with
+    | nil => exact absurd rfl h.1
+    | cons c cs => rfl
+  | bytes b =>
+    have := h.2 b rfl
+    simp only [wfnScan, wfnScanText]
+    cases hb : toValidUTF8 b with
+    | nil => exact absurd hb this
+    | cons c cs => rfl
+  | null => rfl
+  | int v => rfl
+  | other => rfl
 
 /-- A non-empty text is `Unbind`'s business alone (C19 `marshal_roundtrip_partial`
     then gives the round trip of every valid, bindable name). -/
-theorem wfn_nonempty_is_unbind {W : Type} (unbind : Bytes → Option W) (old : W) (b : Bytes) (h : b ≠ []) :
-    wfnUnmarshalText unbind old b = unbind b := by
+theorem wfn_nonempty_is_unbind {W : Type} (unbind : Bytes → Option W) (zero old : W) (b : Bytes) (h : b ≠ []) :
+    wfnUnmarshalText unbind zero old b = unbind b := by
   unfold wfnUnmarshalText
   cases b with
   | nil => exact absurd rfl h
   | cons c cs => rfl
 
-/-- `Scan` over every kind of driver value: `string` is the text decoder,
-    `[]byte` the text decoder after `strings.ToValidUTF8`, everything else
-    (`nil` included) an error. -/
+/-- `Scan` over every kind of driver value: `string` goes to the text body,
+    `[]byte` to the text body after `strings.ToValidUTF8`, everything else
+    (`nil` included) is an error. -/
 theorem wfn_scan_spec {W : Type} (unbind : Bytes → Option W) (old : W) (src : Src) :
-    (∀ s, src = .str s → wfnScan unbind old src = wfnUnmarshalText unbind old s) ∧
-    (∀ b, src = .bytes b → wfnScan unbind old src = wfnUnmarshalText unbind old (toValidUTF8 b)) ∧
+    (∀ s, src = .str s → wfnScan unbind old src = wfnScanText unbind old s) ∧
+    (∀ b, src = .bytes b → wfnScan unbind old src = wfnScanText unbind old (toValidUTF8 b)) ∧
     ((∀ s, src ≠ .str s) → (∀ b, src ≠ .bytes b) → wfnScan unbind old src = none) := by
   cases src <;> simp [wfnScan]
 
